@@ -1,8 +1,72 @@
 import ApolloModel.Model.Proto
-open Apollo Apollo.Proto
+import ApolloModel.Model.SchemaValidation
+open Apollo Apollo.Proto Apollo.SchemaValidation
 namespace Driver
 
-/-- streams of property C14 are named `c14.<name>` -/
-def c14 (_stream : String) (_fs : List String) : String := "unknown-stream"
+/-- streams of property C14 are named `c14.<name>` (cases written by harness/src/p14.rs) -/
+
+def natList (s : String) : List Nat := (s.splitOn ",").filterMap String.toNat?
+
+def showNats (l : List Nat) : String := ",".intercalate (l.map toString)
+
+/-- `N3` `n3` `L3` `l3` `S` -/
+def decodeIField (s : String) : IField :=
+  match s.toList with
+  | 'N' :: ds => { nonNullNamed := true, target := (String.ofList ds).toNat?.getD 1000000 }
+  | 'S' :: _ => { nonNullNamed := true, target := 1000000 }
+  | _ :: ds => { nonNullNamed := false, target := (String.ofList ds).toNat?.getD 1000000 }
+  | [] => { nonNullNamed := false, target := 1000000 }
+
+def decodeIGraph (s : String) : IGraph :=
+  (s.splitOn "|").map fun node => ((node.splitOn ",").filter (· ≠ "")).map decodeIField
+
+def decodeTypeInfo (s : String) : TypeInfo :=
+  match s.splitOn ":" with
+  | [k, imps] => { isInterface := k == "I", implements := natList imps }
+  | _ => { isInterface := false, implements := [] }
+
+def decodeRoot (s : String) : Option RootTarget :=
+  match s.toList with
+  | 'o' :: ds => some (.object ((String.ofList ds).toNat?.getD 0))
+  | 'k' :: ds => some (.otherKind ((String.ofList ds).toNat?.getD 0))
+  | 'u' :: ds => some (.undefined ((String.ofList ds).toNat?.getD 0))
+  | _ => none
+
+/-- `<dirs>:<ty>` with `ty` = `-` or an index -/
+def decodeDArg (s : String) : DArg :=
+  match s.splitOn ":" with
+  | [ds, t] => { dirs := natList ds, ty := t.toNat? }
+  | _ => { dirs := [], ty := none }
+
+def decodeDArgs (s : String) : List DArg := ((s.splitOn ";").filter (· ≠ "")).map decodeDArg
+
+/-- `<kind>/<dirs>/<value dirs ; separated>/<fields ; separated>` -/
+def decodeDType (s : String) : DType :=
+  match s.splitOn "/" with
+  | [k, ds, vs, fs] =>
+    { kind := if k == "e" then .enum else if k == "i" then .input else .scalar,
+      dirs := natList ds,
+      valueDirs := ((vs.splitOn ";").filter (· ≠ "")).map natList,
+      fields := decodeDArgs fs }
+  | _ => { kind := .scalar, dirs := [], valueDirs := [], fields := [] }
+
+def verdictOf (l : List Nat) : String := if l.isEmpty then "ok" else "err:" ++ showNats l
+
+def c14 (stream : String) (fs : List String) : String :=
+  match stream, fs.map fun f => String.ofList (decodeField f) with
+  | "c14.inputcycle", [limit, graph] =>
+    verdictOf (failingInputs (decodeIGraph graph) (limit.toNat?.getD 0))
+  | "c14.implements", [types] =>
+    let s : ISchema := (types.splitOn "|").map decodeTypeInfo
+    showNats ((List.range s.length).map fun i => implementsDiagCount s i (s.getD i default))
+  | "c14.roots", [q, m, sub] =>
+    let ds := validateRoots (decodeRoot q) (decodeRoot m) (decodeRoot sub)
+    if ds.isEmpty then "ok" else s!"err:{ds.length}"
+  | "c14.dircycle", [limit, dirs, types] =>
+    let s : DSchema :=
+      { dirs := if dirs == "" then [] else (dirs.splitOn "|").map decodeDArgs,
+        types := if types == "" then [] else (types.splitOn "|").map decodeDType }
+    verdictOf (failingDirectives s (limit.toNat?.getD 0))
+  | _, _ => "bad-case"
 
 end Driver
